@@ -17,6 +17,7 @@ import (
 	"runtime"
 	"strconv"
 	"strings"
+	"sync"
 
 	tpb "github.com/fullstorydev/grpchan/grpchantesting"
 	"github.com/fullstorydev/grpchan/httpgrpc"
@@ -52,6 +53,24 @@ func (b *cutBody) Read(p []byte) (int, error) {
 	return n, nil
 }
 func (b *cutBody) Close() error { return nil }
+
+// yieldingBody hands out its data a piece at a time and yields the processor after every piece.
+type yieldingBody struct {
+	data []byte
+	step int
+}
+
+func (b *yieldingBody) Read(p []byte) (int, error) {
+	if len(b.data) == 0 {
+		return 0, io.EOF
+	}
+	n := min(len(p), b.step, len(b.data))
+	copy(p, b.data[:n])
+	b.data = b.data[n:]
+	runtime.Gosched()
+	return n, nil
+}
+func (b *yieldingBody) Close() error { return nil }
 
 type framedBody struct {
 	bytes   []byte
@@ -485,6 +504,74 @@ func checkC07(e *core.Env) {
 		_, ntr := parseReplyFrames(rec.Body.Bytes())
 		return run.Rets("h", "recv"), herr, returned, rec.Code, ntr, pan, ms1.TotalAlloc - ms0.TotalAlloc
 	}
+	// after requests that broke off inside a frame: several request streams decoded at the same time, their bodies
+	// arriving in pieces with the goroutines taking turns inside every frame (one processor, a yield after each
+	// piece). Every handler receives exactly the messages of its own stream - whatever the decoder re-uses between
+	// calls, no stream sees another's bytes
+	e.Cases("server-concurrent-after-truncation", e.N(6, 60), func(i int, r *rand.Rand) {
+		prev := runtime.GOMAXPROCS(1)
+		defer runtime.GOMAXPROCS(prev)
+		size := pick(r, 64, 300, 1500, 5000)
+		one := encodeStream([]*tpb.Message{{Payload: bytes.Repeat([]byte{0xEE}, size)}}, nil)
+		for k := 0; k < 1+r.Intn(3); k++ {
+			serve(append([]byte{}, one.bytes[:4+r.Intn(size)]...), pick(r, io.EOF, io.ErrUnexpectedEOF))
+		}
+		const streams = 6
+		type result struct {
+			sent []*tpb.Message
+			got  []Event
+			pan  string
+		}
+		res := make([]result, streams)
+		var wg sync.WaitGroup
+		for sidx := 0; sidx < streams; sidx++ {
+			var msgs []*tpb.Message
+			for k := 0; k < 4; k++ {
+				msgs = append(msgs, &tpb.Message{Payload: bytes.Repeat([]byte{byte(0x10*(sidx+1) + k)}, size), Count: int32(100*sidx + k)})
+			}
+			res[sidx].sent = msgs
+			body := encodeStream(msgs, nil).bytes
+			wg.Add(1)
+			go func(sidx int) {
+				defer wg.Done()
+				sc := &Script{Kind: ClientStream, Handler: []Op{{Op: "recvall"}, {Op: "send", Msg: &tpb.Message{Payload: []byte("resp")}}}}
+				run := svc.NewRun(sc, "http-direct")
+				defer svc.Forget(run)
+				req := httptest.NewRequest("POST", ClientStream.Method(), &yieldingBody{data: body, step: size/3 + 1})
+				req.ContentLength = -1
+				req.Header.Set("Content-Type", httpgrpc.StreamRpcContentType_V1)
+				req.Header.Set("X-Verif-Run", run.ID)
+				res[sidx].pan = guard(func() { srv.ServeHTTP(httptest.NewRecorder(), req) })
+				res[sidx].got = run.Rets("h", "recv")
+			}(sidx)
+		}
+		wg.Wait()
+		e.Eval(fmt.Sprintf("server-concurrent|size=%d", size), true)
+		e.Count("concurrent_request_streams", streams)
+		for sidx, rs := range res {
+			w := map[string]any{"stream": sidx, "frame_payload_bytes": size}
+			if rs.pan != "" {
+				e.Violate("server-concurrent/panic", trunc(rs.pan, 400), w)
+				break
+			}
+			n := 0
+			for _, ev := range rs.got {
+				if ev.Err != nil {
+					continue
+				}
+				if n >= len(rs.sent) || !sameMsg(ev.Msg, rs.sent[n]) {
+					e.Violate("server-concurrent/fabricated", fmt.Sprintf("request stream %d: the handler's receive #%d is {%s}; that stream carried {%s} there", sidx, n, msgDesc(ev.Msg), msgDesc(rs.sent[min(n, len(rs.sent)-1)])), w)
+					return
+				}
+				n++
+			}
+			if n != len(rs.sent) {
+				e.Violate("server-concurrent/lost", fmt.Sprintf("request stream %d: %d of %d messages reached the handler", sidx, n, len(rs.sent)), w)
+				return
+			}
+		}
+	})
+
 	e.Cases("server-cut", e.N(8, 60), func(i int, r *rand.Rand) {
 		nm := 1 + r.Intn(5)
 		var msgs []*tpb.Message
